@@ -236,6 +236,14 @@ impl Group for Request1 {
                 }
             }
             v.push(mk(&bytes, "[]", &tag));
+            // the body has not arrived yet when it is asked for: the read is pending once right behind the head, or after
+            // the first bytes of the body — and the body is what the client sent all the same
+            if !exp_body.is_empty() {
+                let pause = crate::groups::c18::PAUSE;
+                for pat in [format!("[{head_len},{pause},100000]"), format!("[{head_len},{pause},1,{pause},100000]"), format!("[{},{pause},100000]", head_len + 1), format!("[{head_len},{pause},3]")] {
+                    v.push(mk(&bytes, &pat, &tag));
+                }
+            }
             // the caller's limit below the declared length: the body is the first `limit` bytes, however the stream is
             // delivered — all of it in one read with the head, cut right behind the head, cut inside the body
             if !exp_body.is_empty() {
@@ -291,7 +299,9 @@ impl Group for Request1 {
     }
     fn driver_line(&self, line: &str) -> String {
         let l = line.split(" #").next().unwrap();
-        expand_gen_head(l)
+        // a pause delivers nothing: the model's schedule is the one without it
+        let l = l.replace(&format!(",{}", crate::groups::c18::PAUSE), "");
+        expand_gen_head(&l)
     }
     fn run_impl(&self, _ctx: &Ctx, line: &str) -> String {
         let l = expand_gen_head(line.split(" #").next().unwrap());
